@@ -112,7 +112,7 @@ const P2: usize = 0x2000;
 // trace:    active_addr.store precedes control.swap; the control swap is SeqCst.
 // @harness name=l1_helping_get_debt props=C13,C01,C02 tier=quick flavour=nostd fn=helping::Slots::get_debt
 #[cfg_attr(kani, kani::proof)]
-#[cfg_attr(kani, kani::unwind(66))]
+#[cfg_attr(kani, kani::unwind(12))]
 pub(crate) fn l1_helping_get_debt() {
     let mut s = Slots::default();
     s.init();
@@ -126,6 +126,8 @@ pub(crate) fn l1_helping_get_debt() {
     let pre = view(&s);
     let ptr = if nd::any_bool() { A1 } else { A2 };
     model::log_reset();
+    let w_aa = model::watch(model::K_STORE, &s.active_addr as *const _ as usize);
+    let w_ctl = model::watch(model::K_SWAP, &s.control as *const _ as usize);
     unsafe { crate::verif::set_hooks(None, Some(model::record_after)) };
 
     let (gen, discard) = s.get_debt(ptr, &l);
@@ -142,12 +144,11 @@ pub(crate) fn l1_helping_get_debt() {
     vassert!(post.slot == pre.slot && post.space_offer == pre.space_offer && post.offered_content == pre.offered_content,
         "helping_get_debt_frame");
     // trace contract
-    let i_aa = model::find(0, model::K_STORE, &s.active_addr as *const _ as usize);
-    let i_ctl = model::find(0, model::K_SWAP, &s.control as *const _ as usize);
-    vassert!(i_aa < i_ctl && i_ctl < model::LOG_CAP, "helping_get_debt_active_addr_stored_before_control_published");
-    vassert!(model::log_at(i_ctl).ord == model::O_SEQCST, "helping_get_debt_control_publication_is_seqcst");
-    vassert!(model::releases(model::log_at(i_aa).ord), "helping_get_debt_active_addr_store_releases");
-    vassert!(model::log_len() == 2, "helping_get_debt_exactly_two_atomic_steps");
+    let (aa, ctl) = (model::w(w_aa), model::w(w_ctl));
+    vassert!(aa.count == 1 && ctl.count == 1 && aa.first < ctl.first, "helping_get_debt_active_addr_stored_before_control_published");
+    vassert!(ctl.first_rec.ord == model::O_SEQCST, "helping_get_debt_control_publication_is_seqcst");
+    vassert!(model::releases(aa.first_rec.ord), "helping_get_debt_active_addr_store_releases");
+    vassert!(model::steps() == 2, "helping_get_debt_exactly_two_atomic_steps");
     vcover!("l1_helping_get_debt_end");
 }
 
@@ -159,7 +160,7 @@ pub(crate) fn l1_helping_get_debt() {
 // trace:    slot.swap (SeqCst) precedes control.swap.
 // @harness name=l1_helping_confirm props=C01,C02,C13 tier=quick flavour=nostd fn=helping::Slots::confirm
 #[cfg_attr(kani, kani::proof)]
-#[cfg_attr(kani, kani::unwind(66))]
+#[cfg_attr(kani, kani::unwind(12))]
 pub(crate) fn l1_helping_confirm() {
     let mut s = Slots::default();
     s.init();
@@ -179,6 +180,8 @@ pub(crate) fn l1_helping_confirm() {
     let pre = view(&s);
     let ptr = if nd::any_bool() { P1 } else { P2 };
     model::log_reset();
+    let w_slot = model::watch(model::K_SWAP, &s.slot.0 as *const _ as usize);
+    let w_ctl = model::watch(model::K_SWAP, &s.control as *const _ as usize);
     unsafe { crate::verif::set_hooks(None, Some(model::record_after)) };
 
     let r = s.confirm(gen, ptr);
@@ -199,11 +202,10 @@ pub(crate) fn l1_helping_confirm() {
             vassert!(post.space_offer == env_addr, "helping_confirm_takes_over_envelope");
         }
     }
-    let i_slot = model::find(0, model::K_SWAP, &s.slot.0 as *const _ as usize);
-    let i_ctl = model::find(0, model::K_SWAP, &s.control as *const _ as usize);
-    vassert!(i_slot < i_ctl && i_ctl < model::LOG_CAP, "helping_confirm_slot_published_before_control_released");
-    vassert!(model::log_at(i_slot).ord == model::O_SEQCST, "helping_confirm_slot_publication_is_seqcst");
-    vassert!(model::acquires(model::log_at(i_ctl).ord) && model::releases(model::log_at(i_ctl).ord), "helping_confirm_control_swap_is_acqrel");
+    let (sl, ctl) = (model::w(w_slot), model::w(w_ctl));
+    vassert!(sl.count == 1 && ctl.count == 1 && sl.first < ctl.first, "helping_confirm_slot_published_before_control_released");
+    vassert!(sl.first_rec.ord == model::O_SEQCST, "helping_confirm_slot_publication_is_seqcst");
+    vassert!(model::acquires(ctl.first_rec.ord) && model::releases(ctl.first_rec.ord), "helping_confirm_control_swap_is_acqrel");
     vcover!("l1_helping_confirm_end");
 }
 
@@ -232,7 +234,7 @@ fn replacement() -> TP {
 // frame:    who.slot, who.active_addr, who.space_offer never written by the helper.
 // @harness name=l1_helping_help props=C01,C02,C12,C03 tier=quick flavour=nostd fn=helping::Slots::help
 #[cfg_attr(kani, kani::proof)]
-#[cfg_attr(kani, kani::unwind(66))]
+#[cfg_attr(kani, kani::unwind(12))]
 pub(crate) fn l1_helping_help() {
     let mut me = Slots::default();
     me.init();
@@ -261,6 +263,8 @@ pub(crate) fn l1_helping_help() {
     let pre_me = view(&me);
     let pre_who = view(&who);
     model::log_reset();
+    let w_env = model::watch(model::K_STORE, pre_me.space_offer);
+    let w_cas = model::watch(model::K_CAS_ANY, &who.control as *const _ as usize);
     unsafe { crate::verif::set_hooks(None, Some(model::record_after)) };
 
     me.help::<_, TP>(&who, storage_addr, &replacement);
@@ -279,18 +283,16 @@ pub(crate) fn l1_helping_help() {
         vassert!(post_me.space_offer == pre_who.space_offer, "help_takes_their_space_in_return");
         vassert!(model::cnt(obj) == 2, "help_reference_travels_with_envelope");
         // the envelope is written before the CAS that publishes it
-        let i_env = model::find(0, model::K_STORE, pre_me.space_offer);
-        let i_cas = model::find(0, model::K_CAS, &who.control as *const _ as usize);
-        vassert!(i_env < i_cas && i_cas < model::LOG_CAP, "help_envelope_written_before_publication");
-        let cas = model::log_at(i_cas);
-        vassert!(cas.a == gen && cas.ok, "help_cas_expects_the_control_value_it_read");
-        vassert!(model::releases(cas.ord) && model::acquires(cas.ord), "help_publication_cas_is_acqrel");
+        let (env_w, cas) = (model::w(w_env), model::w(w_cas));
+        vassert!(env_w.count == 1 && cas.count == 1 && env_w.first < cas.first, "help_envelope_written_before_publication");
+        vassert!(cas.first_rec.a == gen && cas.first_rec.ok, "help_cas_expects_the_control_value_it_read");
+        vassert!(model::releases(cas.first_rec.ord) && model::acquires(cas.first_rec.ord), "help_publication_cas_is_acqrel");
     } else {
         vassert!(calls == 0, "help_no_replacement_unless_reader_is_loading_my_storage");
         vassert!(post_who.control == pre_who.control, "help_leaves_control_alone_when_not_concerned");
         vassert!(post_me.space_offer == pre_me.space_offer && post_me.offered_content == pre_me.offered_content, "help_frame_own_envelope");
         vassert!(model::cnt(obj) == 1, "help_no_count_touched_when_not_concerned");
-        vassert!(model::count_kind(model::K_STORE) == 0 && model::count(model::K_CAS, &who.control as *const _ as usize) == 0, "help_no_write_when_not_concerned");
+        vassert!(model::writes() == 0, "help_no_write_when_not_concerned");
     }
     vcover!("l1_helping_help_end");
 }
